@@ -72,6 +72,10 @@ type Case struct {
 	A   []byte `json:"a"`
 	B   []byte `json:"b,omitempty"`
 	Off int    `json:"off"` // alignment offset of A's first byte inside a 64-aligned arena
+	// View: the second operand is not B in memory of its own but the window A[BLo:BHi] of the first
+	// operand's memory (two views of one buffer, a string and a substring of it)
+	View     bool `json:"view,omitempty"`
+	BLo, BHi int  `json:",omitempty"`
 }
 
 var arena = func() []byte {
@@ -129,19 +133,25 @@ func checkCase(c Case) *evid.Failure {
 		// canary after B differs from the canary after A so that reading past
 		// the end makes the strings look different
 		b := place(arena2, c.B, (c.Off*7+3)%32, 0x01)
+		cB := c.B
+		sa, sb := string(a), string(b)
+		if c.View {
+			b, cB = a[c.BLo:c.BHi:c.BHi], c.A[c.BLo:c.BHi]
+			sb = sa[c.BLo:c.BHi] // shares the bytes of sa
+		}
 		switch c.Fn {
 		case "EqualFold":
-			got, want = ascii.EqualFold(a, b), refEqualFold(c.A, c.B)
+			got, want = ascii.EqualFold(a, b), refEqualFold(c.A, cB)
 		case "EqualFoldString":
-			got, want = ascii.EqualFoldString(string(a), string(b)), refEqualFold(c.A, c.B)
+			got, want = ascii.EqualFoldString(sa, sb), refEqualFold(c.A, cB)
 		case "HasPrefixFold":
-			got, want = ascii.HasPrefixFold(a, b), refHasPrefixFold(c.A, c.B)
+			got, want = ascii.HasPrefixFold(a, b), refHasPrefixFold(c.A, cB)
 		case "HasPrefixFoldString":
-			got, want = ascii.HasPrefixFoldString(string(a), string(b)), refHasPrefixFold(c.A, c.B)
+			got, want = ascii.HasPrefixFoldString(sa, sb), refHasPrefixFold(c.A, cB)
 		case "HasSuffixFold":
-			got, want = ascii.HasSuffixFold(a, b), refHasSuffixFold(c.A, c.B)
+			got, want = ascii.HasSuffixFold(a, b), refHasSuffixFold(c.A, cB)
 		case "HasSuffixFoldString":
-			got, want = ascii.HasSuffixFoldString(string(a), string(b)), refHasSuffixFold(c.A, c.B)
+			got, want = ascii.HasSuffixFoldString(sa, sb), refHasSuffixFold(c.A, cB)
 		default:
 			return &evid.Failure{Oracle: "harness", Observed: "unknown fn " + c.Fn}
 		}
@@ -464,10 +474,23 @@ func TestRandom(t *testing.T) {
 			if rapid.IntRange(0, 4).Draw(rt, "extra") == 0 {
 				c.B = append(c.B, ascii7.Draw(rt, "x"))
 			}
+			if rapid.IntRange(0, 5).Draw(rt, "view") == 0 {
+				// both operands are views of one buffer: same start and another length, a window, the whole
+				c.View, c.B = true, nil
+				c.BLo = rapid.SampledFrom([]int{0, 0, 0, 1, len(c.A) / 2, len(c.A)}).Draw(rt, "vlo")
+				if c.BLo > len(c.A) {
+					c.BLo = len(c.A)
+				}
+				c.BHi = rapid.IntRange(c.BLo, len(c.A)).Draw(rt, "vhi")
+				if rapid.IntRange(0, 3).Draw(rt, "vall") == 0 {
+					c.BHi = len(c.A)
+				}
+				evid.Label("random.operands-share-memory")
+			}
 		}
 		evid.Eval(1)
 		if len(c.A) >= 8 {
-			evid.NonTrivial(evid.Hash([]byte(c.Fn), c.A, c.B, []byte{byte(c.Off)}))
+			evid.NonTrivial(evid.Hash([]byte(c.Fn), c.A, c.B, []byte{byte(c.Off)}, []byte(fmt.Sprint(c.View, c.BLo, c.BHi))))
 		}
 		evid.Label("random." + c.Fn)
 		evid.Sample(c)
